@@ -17,6 +17,12 @@ Observables per generated triangle:
     explicit and with inferred period_resolution = model = original
   * Matrix (month-aligned semi-regular, complete and holey, incl. quarterly periods evaluated
     annually): index, shape, entries = model; matrix_to_triangle(triangle_to_matrix(t)) = original
+  * SEQUENCE (state carried between calls in one process): every CSV pair is read by five readers in
+    random order — from_wide_csv with field_cols only / detail_cols only (fields inferred) / both,
+    from_long_csv, from_long_data_frame(loss_detail_cols) — each checked against model and Spec, so an
+    earlier read with explicit detail columns precedes later reads that infer them; a share of the
+    files is written twice (identical bytes), a reader repeated; array frame and matrix are asked twice
+    after the first result was edited in place; the written triangle must be unchanged.
 """
 import csv
 import dataclasses
@@ -317,39 +323,66 @@ def correspondence(ctx):
             ctx.case(digest=json.dumps([canon_cell(w) for w in wire], sort_keys=True), nontrivial=True,
                      sample=desc if i < 3 else None)
             case = {"cells": wire, "stream": stream}
-            # wide
+            # the files are written once (twice for a share of the cases: identical text), then read back by
+            # several readers with explicit vs inferred column lists IN RANDOM ORDER within this process
             rng.shuffle(fields)
-            st, r = call(t.to_wide_csv, wide_p)
-            if st != "ok":
-                ctx.fail(f"to_wide_csv raised {r}", case)
-            else:
-                table = read_csv_table(wide_p, numeric)
-                loaded = dump(call(Triangle.from_wide_csv, wide_p, field_cols=list(fields),
-                                   loss_detail_cols=list(ldet_keys)))
-                reqs.append({"op": "wide", "cells": wire, "field_cols": fields,
-                             "detail_cols": [c for c in table["cols"] if c in det_keys or c in ldet_keys],
-                             "loss_detail_cols": ldet_keys, "impl_table": table,
-                             "impl_loaded": loaded.get("ok"), "impl_nrows": len(table["rows"])})
-                info.append(("wide", case, table, loaded))
-            # long (from_long_csv has no loss_detail_cols: loss details come back as details)
-            st, r = call(t.to_long_csv, long_p)
-            if st != "ok":
-                ctx.fail(f"to_long_csv raised {r}", case)
-            else:
-                table = read_csv_table(long_p, numeric)
-                loaded = dump(call(Triangle.from_long_csv, long_p))
-                reqs.append({"op": "long", "cells": wire, "loss_detail_cols": [], "impl_table": table,
-                             "impl_loaded": loaded.get("ok"), "impl_nrows": len(table["rows"])})
-                info.append(("long", case, table, loaded))
-
-                def via_frame():
-                    df = pd.read_csv(long_p, parse_dates=[c for c in ("period_start", "period_end", "evaluation_date",
-                                                                      "prev_evaluation_date") if c in table["cols"]])
-                    return Triangle.from_long_data_frame(df, loss_detail_cols=list(ldet_keys))
-                loaded2 = dump(call(via_frame))
-                reqs.append({"op": "long", "cells": wire, "loss_detail_cols": ldet_keys, "impl_table": table,
-                             "impl_loaded": loaded2.get("ok")})
-                info.append(("long+loss_detail_cols", case, table, loaded2))
+            st_w, r_w = call(t.to_wide_csv, wide_p)
+            st_l, r_l = call(t.to_long_csv, long_p)
+            if st_w != "ok":
+                ctx.fail(f"to_wide_csv raised {r_w}", case)
+            if st_l != "ok":
+                ctx.fail(f"to_long_csv raised {r_l}", case)
+            if rng.random() < 0.25 and st_w == "ok" and st_l == "ok":
+                w1, l1 = open(wide_p, "rb").read(), open(long_p, "rb").read()
+                call(t.to_wide_csv, wide_p)
+                call(t.to_long_csv, long_p)
+                ctx.count("sequence/csv written twice")
+                if open(wide_p, "rb").read() != w1 or open(long_p, "rb").read() != l1:
+                    ctx.fail("writing the same triangle to CSV a second time gives a different file", case)
+            if w_cells(t.cells) != wire:
+                ctx.fail("writing a CSV changed the triangle", case)
+            wtable = read_csv_table(wide_p, numeric) if st_w == "ok" else None
+            ltable = read_csv_table(long_p, numeric) if st_l == "ok" else None
+            dcols = [c for c in (wtable["cols"] if wtable else []) if c in det_keys or c in ldet_keys]
+            readers = []
+            if wtable is not None:
+                readers += [("wide", dict(field_cols=list(fields), loss_detail_cols=list(ldet_keys))),
+                            ("wide[detail_cols given, fields inferred]",
+                             dict(detail_cols=list(dcols), loss_detail_cols=list(ldet_keys))),
+                            ("wide[both given]", dict(field_cols=list(fields), detail_cols=list(dcols),
+                                                      loss_detail_cols=list(ldet_keys)))]
+            if ltable is not None:
+                readers += [("long", None), ("long+loss_detail_cols", None)]
+            rng.shuffle(readers)
+            if rng.random() < 0.2 and readers:
+                readers.append(readers[0])          # the same reader once more
+            first_wide = True
+            for name, kw in readers:
+                ctx.count(f"csv reader/{name}")
+                if name.startswith("wide"):
+                    loaded = dump(call(Triangle.from_wide_csv, wide_p, **kw))
+                    req = {"op": "wide", "cells": wire, "field_cols": sorted(fields), "detail_cols": dcols,
+                           "loss_detail_cols": ldet_keys, "impl_loaded": loaded.get("ok")}
+                    if first_wide:
+                        req.update(impl_table=wtable, impl_nrows=len(wtable["rows"]))
+                    reqs.append(req)
+                    info.append((name, case, wtable if first_wide else None, loaded))
+                    first_wide = False
+                elif name == "long":
+                    # from_long_csv has no loss_detail_cols: loss details come back as details
+                    loaded = dump(call(Triangle.from_long_csv, long_p))
+                    reqs.append({"op": "long", "cells": wire, "loss_detail_cols": [], "impl_table": ltable,
+                                 "impl_loaded": loaded.get("ok"), "impl_nrows": len(ltable["rows"])})
+                    info.append(("long", case, ltable, loaded))
+                else:
+                    def via_frame():
+                        df = pd.read_csv(long_p, parse_dates=[c for c in ("period_start", "period_end", "evaluation_date",
+                                                                          "prev_evaluation_date") if c in ltable["cols"]])
+                        return Triangle.from_long_data_frame(df, loss_detail_cols=list(ldet_keys))
+                    loaded2 = dump(call(via_frame))
+                    reqs.append({"op": "long", "cells": wire, "loss_detail_cols": ldet_keys, "impl_table": ltable,
+                                 "impl_loaded": loaded2.get("ok")})
+                    info.append(("long+loss_detail_cols", case, None, loaded2))
 
         # (ii) array data frame
         for i in range(n_arr):
@@ -366,6 +399,17 @@ def correspondence(ctx):
             if st != "ok":
                 ctx.fail(f"to_array_data_frame raised {df}", case)
                 continue
+            if rng.random() < 0.3:
+                # sequence: edit the returned frame in place, read it back once, then ask again
+                snap = df.copy()
+                call(Triangle.from_array_data_frame, df, field, metadata=md, period_resolution=res)
+                df.iloc[:, 1:] = 0
+                st2, df2 = call(t.to_array_data_frame, field)
+                ctx.count("sequence/array frame asked twice")
+                if st2 != "ok" or not snap.equals(df2):
+                    ctx.fail("to_array_data_frame: a second call (after editing the first result in place) differs", case)
+                    continue
+                df = df2
             frame = []
             for _, row in df.iterrows():
                 ents = [[int(c), w_val(row[c] if not isinstance(row[c], np.generic) else row[c].item())]
@@ -394,6 +438,16 @@ def correspondence(ctx):
             desc["representable"] = matrix_representable(t)
             ctx.count("matrix/representable" if desc["representable"] else "matrix/lags off the index grid (no Spec)")
             st, m = call(triangle_to_matrix, t)
+            if st == "ok" and rng.random() < 0.3:
+                # sequence: wipe the returned data in place, convert it back once, then ask again
+                snap = m.data.copy()
+                m.data[...] = 0
+                call(matrix_to_triangle, m)
+                st, m = call(triangle_to_matrix, t)
+                ctx.count("sequence/matrix asked twice")
+                if st != "ok" or not np.array_equal(snap, m.data, equal_nan=True):
+                    ctx.fail("triangle_to_matrix: a second call (after wiping the first result in place) differs", case)
+                    continue
             if st == "ok":
                 ix = m.index
                 ents = sorted([int(a), int(b), int(c), int(d), w_rat(float(m.data[a, b, c, d]))]
@@ -414,9 +468,10 @@ def correspondence(ctx):
         outs = drv.run(reqs)
 
     for (kind, case, impl_a, impl_b), req, out in zip(info, reqs, outs):
-        if kind in ("wide", "long", "long+loss_detail_cols"):
+        if kind.startswith("wide") or kind.startswith("long"):
             table, loaded = impl_a, impl_b
-            what = {"wide": "wide CSV", "long": "long CSV", "long+loss_detail_cols": "long CSV via from_long_data_frame"}[kind]
+            what = {"long": "long CSV", "long+loss_detail_cols": "long CSV via from_long_data_frame"}.get(
+                kind, kind.replace("wide", "wide CSV", 1))
             if "err" in loaded:
                 ctx.fail(f"{what}: reading back the library's own file raised {loaded['err']}", case)
             else:
@@ -425,10 +480,10 @@ def correspondence(ctx):
                     ctx.fail(f"{what}: the slices of the original are not kept apart", case, {"loaded": loaded["ok"]})
                 elif not spec["roundtrip"]:
                     ctx.fail(f"{what}: write then read is not the original triangle", case, {"loaded": loaded["ok"]})
-            if out.get("rowspec") is False:
-                ctx.fail(f"{what}: number of rows is not one per cell and scenario" + (" and field" if kind != "wide" else ""),
+            if out.get("rowspec") is False and table is not None:
+                ctx.fail(f"{what}: number of rows is not one per cell and scenario" + (" and field" if kind.startswith("long") else ""),
                          case, {"rows": len(table["rows"])})
-            if kind != "long+loss_detail_cols":
+            if table is not None:
                 mt = out["table"]
                 if "err" in mt:
                     ctx.disagree(f"{what} rows (model refuses)", case, mt, None)
@@ -443,7 +498,7 @@ def correspondence(ctx):
                                      a[k:k + 1], b[k:k + 1])
             if not same(out["back"], loaded):
                 ctx.disagree(f"{what}: from(to(t))", case, out["back"], loaded)
-            if out["impl_table_back"] is not None and not same(out["impl_table_back"], loaded):
+            if out.get("impl_table_back") is not None and not same(out["impl_table_back"], loaded):
                 ctx.disagree(f"{what}: reader on the implementation's own table", case, out["impl_table_back"], loaded)
         elif kind == "array":
             frame, (exp, inf, n_periods) = impl_a, impl_b
